@@ -262,6 +262,93 @@ func runC17(r *core.Run) {
 			return core.Outcome{Class: fmt.Sprint("seqs=", m), Nontrivial: true, Evals: evals}
 		})
 
+	type longCase struct {
+		Len int `json:"len"`
+		K   int `json:"k"`
+		N   int `json:"n"`
+	}
+	core.Clause(r, "long-sequences", core.Opts{Rule: "position-dependent sequences (mixed case, some N) of 1000, 65535..65538 and 200000 bases x k in {1, 15, 21, 32} x n in {1, 100, 1000, 100000}: View() == bottom-n reference; the same sequence split into two Add calls at every listed cut gives the same sketch; non-trivial = all"},
+		func(emit func(longCase) bool) {
+			for _, l := range []int{1000, 65535, 65536, 65537, 65538, 200000} {
+				for _, k := range []int{1, 15, 21, 32} {
+					for _, n := range []int{1, 100, 1000, 100000} {
+						if !emit(longCase{l, k, n}) {
+							return
+						}
+					}
+				}
+			}
+		},
+		func(c longCase) core.Outcome {
+			seq := make([]byte, c.Len)
+			for i := range seq {
+				seq[i] = "ACGTTGCAAGCTCCGATTAGGCAT"[(i*5+i/24+i*i/97)%24]
+				if i%17 == 3 {
+					seq[i] += 'a' - 'A'
+				}
+				if i%4099 == 11 {
+					seq[i] = 'N'
+				}
+			}
+			want := ref.BottomN(ref.CanonicalKmerHashes(c.K, mash.Seed, seq), c.N)
+			var view []uint64
+			if p := catch(func() { view = slices.Clone(mash.Sequences(c.N, c.K, seq).View()) }); p != "" {
+				return core.Failf("Sequences(n=%d,k=%d, %d bases) panicked: %s", c.N, c.K, c.Len, p)
+			}
+			if !slices.Equal(view, want) {
+				return core.Failf("Sequences(n=%d,k=%d, %d bases): View() has %d values and differs from the bottom-n reference (%d values)", c.N, c.K, c.Len, len(view), len(want))
+			}
+			// two overlapping pieces that together contain every k-mer
+			for _, cut := range []int{c.Len / 3, 65536, c.Len - 1} {
+				if cut < c.K || cut >= c.Len {
+					continue
+				}
+				mh := minhash.New[uint64](c.N)
+				mash.Add(mh, c.K, seq[:cut])
+				mash.Add(mh, c.K, seq[cut-c.K+1:])
+				if !slices.Equal(mh.View(), want) {
+					return core.Failf("n=%d k=%d: %d bases added in two overlapping pieces (cut %d) give a different sketch than in one call", c.N, c.K, c.Len, cut)
+				}
+			}
+			return core.Outcome{Class: fmt.Sprint("full=", len(view) == c.N), Nontrivial: true, Evals: 4}
+		})
+
+	core.Clause(r, "interleaved-sketches", core.Opts{Rule: "two sketches built alternately (Add to one, then to the other, ...) from all ordered pairs of a pool of inputs must equal the sketches built separately: no state shared between sketches; non-trivial = all"},
+		func(emit func(c17Pair) bool) {
+			pool := [][]string{{"ACGTAC", "GGT"}, {"TTTTAAAACC"}, {"acgtnacgt", "CA", "G"}, {"GATTACAGATTACA", "TGTAATC"}, {""}, {"CCCCCCCC", "GGGG"}}
+			for _, a := range pool {
+				for _, b := range pool {
+					for _, k := range ks {
+						for _, n := range []int{1, 3, 8} {
+							emit(c17Pair{core.SS(a...), core.SS(b...), k, n})
+						}
+					}
+				}
+			}
+		},
+		func(c c17Pair) core.Outcome {
+			wa, wb := refSketch(c.N, c.K, c.A), refSketch(c.N, c.K, c.B)
+			var va, vb []uint64
+			if p := catch(func() {
+				ma, mb := minhash.New[uint64](c.N), minhash.New[uint64](c.N)
+				for i := 0; i < max(len(c.A), len(c.B)); i++ {
+					if i < len(c.A) {
+						mash.Add(ma, c.K, c.A[i].B())
+					}
+					if i < len(c.B) {
+						mash.Add(mb, c.K, c.B[i].B())
+					}
+				}
+				va, vb = slices.Clone(ma.View()), slices.Clone(mb.View())
+			}); p != "" {
+				return core.Failf("panic: %s", p)
+			}
+			if !slices.Equal(va, wa) || !slices.Equal(vb, wb) {
+				return core.Failf("n=%d k=%d: sketches of %q and %q built alternately are %v and %v, separately %v and %v", c.N, c.K, c.A, c.B, va, vb, wa, wb)
+			}
+			return core.Outcome{Class: "ok", Nontrivial: true, Evals: 2}
+		})
+
 	// E2: history search over Add
 	pool := []string{"AC", "CA", "GT", "AAA", "ACG", "CGT", "TTT", "GATC", "N", "acgt", "", "TGCA", "CCC", "GAG", "TAT", "ATC", "GGA", "CTA", "AGT", "TGG"}
 	for _, kn := range [][2]int{{2, 2}, {2, 3}, {3, 3}, {3, 5}} {
